@@ -383,9 +383,42 @@ def r4(ctx, facts, cfg):
                "flush_log is invoked with a zero sleep interval (yield loop)", fn=f)
         # SIGINT / SIGTERM -> exit(EXIT_SUCCESS), reachable only under those comparisons
         tests = {}
+        # a once-initialised local that holds 'sig == SIGINT || sig == SIGTERM' (any subset, any order) stands for those tests: its true
+        # outcome means "one of them", its false outcome "none of them"; the short-circuit blocks inside its initialiser decide nothing
+        combined = {}     # did -> set of signal numbers
+        init_nodes = []
+        for vid, i in inits.items():
+            if not isnode(i) or f.assignments_to_var(vid):
+                continue
+            leaves = flatten(strip(i, casts=True), "||")
+            vals = set()
+            for lf in leaves:
+                nl = norm_cmp(lf)
+                ll = peel_not(lf)
+                if nl and nl[0] == "==" and isnode(ll) and ll["k"] == "BinaryOperator":
+                    for (x, y) in ((ll["lhs"], ll["rhs"]), (ll["rhs"], ll["lhs"])):
+                        if var_ref(x) == sigp and const_val(y) in (2, 15):
+                            vals.add(const_val(y))
+                            break
+                    else:
+                        vals = None
+                        break
+                else:
+                    vals = None
+                    break
+            if vals:
+                combined[vid] = vals
+                init_nodes.append(i)
+        comb_e = []       # (block, label of 'one of them', values)
         for b2, blk in g.blocks.items():
             c = g.term_cond(b2)
             if c is None:
+                continue
+            if any(in_subtree(c, i) for i in init_nodes):
+                continue
+            core, neg = core_and_neg(c)
+            if var_ref(strip(core, casts=True)) in combined:
+                comb_e.append((b2, "F" if neg else "T", combined[var_ref(strip(core, casts=True))]))
                 continue
             nc = norm_cmp(c)
             cc = peel_not(c)
@@ -394,17 +427,19 @@ def r4(ctx, facts, cfg):
                     if var_ref(x) == sigp and const_val(y) in (2, 15):
                         tests.setdefault(const_val(y), []).append(b2)
         all_exits = cpos(f, r"^(std::)?exit$")
-        ok = set(tests) == {2, 15} and not g.exists_path([g.entry_node], all_exits, avoid_edges=[(b2, "T") for v in tests.values() for b2 in v])
+        seen_vals = set(tests) | set(v for (_b, _l, vs) in comb_e for v in vs)
+        ok = seen_vals == {2, 15} and not g.exists_path([g.entry_node], all_exits, avoid_edges=[(b2, "T") for v in tests.values() for b2 in v] +
+                                                         [(b2, l2) for (b2, l2, _vs) in comb_e])
         ex_calls = f.calls(r"^(std::)?exit$")
         ok = ok and all(const_val(c["args"][0]) == 0 for c in ex_calls)
         ctx.ob("C07.R4d", site + ":int-term-exit-success", ok,
                "std::exit is reached only for SIGINT/SIGTERM and with EXIT_SUCCESS", fn=f)
         # SIGINT/SIGTERM never reach raise: on each side of the logger test, every path to a raise passes the 'different'
         # outcome of a test against SIGINT and of a test against SIGTERM
-        ok = bool(tests)
+        ok = bool(tests) or bool(comb_e)
         all_raises = cpos(f, r"^(std::)?raise$")
         for v in (2, 15):
-            fe = [(b2, "F") for b2 in tests.get(v, [])]
+            fe = [(b2, "F") for b2 in tests.get(v, [])] + [(b2, other_(l2)) for (b2, l2, vs) in comb_e if v in vs]
             for p in all_raises:
                 if g.exists_path([g.entry_node], [p], avoid_edges=fe):
                     ok = False
